@@ -154,6 +154,26 @@ def decimal_sign_rule(ctx):
                         'which can drop digits of the operand (exact: '
                         'scaleb, multiplication by a power of ten)' %
                         '/'.join(lossy)))
+        # int(value) drops the fractional digits: a path that writes it
+        # with scale 0 must be taken only by values that have none
+        X = _exponent_term(E)
+        u = v.arg
+        while isinstance(u, Sym) and u.op == 'typed' and u.args:
+            u = u.args[0]
+        sc = flds[0].arg
+        if X is not None and isinstance(u, Sym) and u.op == 'int' and \
+                len(u.args) == 1 and u.args[0] is E.P and \
+                isinstance(sc, int) and not isinstance(sc, Sym):
+            from . import isets
+            adm = _admitted_exponents(p, X)
+            bad = adm.inter(isets.ISet.range(None, -sc - 1))
+            out.append(('encode.decimal path %d exactness' % (i + 1),
+                        bad.is_empty(),
+                        'int(value) written with scale %d only for '
+                        'exponents %s' % (sc, adm) if bad.is_empty() else
+                        'int(value) is written with scale %d also for '
+                        'exponents %s: the fractional digits are dropped' %
+                        (sc, bad)))
         okk = depends_on_sign(v.arg, E.P)
         out.append(('encode.decimal path %d unscaled value' % (i + 1), okk,
                     'operand %s %s' % (T.show(v.arg)[:100],
@@ -298,6 +318,7 @@ def decimal_accept_rule(ctx):
                 if isinstance(a, Sym) and not isets.is_type_atom(a):
                     s_ = s_.inter(isets.superset(a, arg))
             union[j] = union[j].union(s_)
+    out.extend(_decimal_exponents(E))
     for j in (0, 1):
         if not seen[j]:
             continue
@@ -310,7 +331,76 @@ def decimal_accept_rule(ctx):
     return out
 
 
-def table_key_rule(ctx, limit=128):
+def _exponent_term(E):
+    X = None
+    for p in E.paths:
+        terms = [a for a in p.kn.atoms if isinstance(a, Sym)] + \
+            [s.arg for s in p.segs if s.kind == 'fld' and
+             isinstance(s.arg, Sym)]
+        for t in T.subterms(tuple(terms)):
+            if t.op == 'attr' and t.args[1] == 'exponent':
+                X = t
+    return X
+
+
+def _admitted_exponents(p, X):
+    """Integer exponents the conditions of a return path allow
+    (`isinstance(exponent, int)` taken as true): a superset."""
+    from . import isets
+    typ = {t: True for a in p.kn.atoms if isinstance(a, Sym)
+           for t in T.subterms(a)
+           if t.op == 'isinstance' and t.args[0] is X and
+           'int' in t.args[1]}
+    s_ = isets.ISet.all()
+    for a in p.kn.atoms:
+        if not isinstance(a, Sym):
+            continue
+        a2 = T.subst(a, typ) if typ else a
+        if a2 is False:
+            s_ = isets.ISet.empty()
+        elif isinstance(a2, Sym):
+            s_ = s_.inter(isets.superset(a2, X))
+    return s_
+
+
+def _decimal_exponents(E):
+    """Every Decimal whose exponent is an integer >= -255 has a return
+    path: the exponents a path admits are those its conditions allow (with
+    `isinstance(exponent, int)` taken as true) and for which the scale it
+    writes fits the unsigned octet.  A positive exponent is scale 0."""
+    from . import isets
+    X = _exponent_term(E)
+    if X is None:
+        return []
+    union = isets.ISet.empty()
+    for p in E.paths:
+        flds = [s for s in p.segs if s.kind == 'fld']
+        if len(flds) != 2:
+            continue
+        s_ = _admitted_exponents(p, X)
+        sc = flds[0].arg
+        if isinstance(sc, int) and not isinstance(sc, Sym):
+            if not 0 <= sc <= 255:
+                s_ = isets.ISet.empty()
+        elif isinstance(sc, Sym) and T.mentions(sc, lambda t: t is X):
+            parts = T._lin_parts(sc)
+            if parts is not None and set(parts[1]) == {X} and \
+                    parts[1][X] in (1, -1):
+                c, k = parts[0], parts[1][X]
+                lo, hi = ((0 - c), (255 - c)) if k == 1 else \
+                    ((c - 255), c)
+                s_ = s_.inter(isets.ISet.range(lo, hi))
+        union = union.union(s_)
+    want = isets.ISet.range(-255, None)
+    missing = want.inter(union.complement())
+    return [('encode.decimal accepted exponents', missing.is_empty(),
+             'integer exponents %s have a return path' % union
+             if missing.is_empty() else
+             'integer exponents %s have no return path (admitted: %s): '
+             'those Decimals are refused' % (missing, union))]
+
+
+def table_key_rule(ctx, limit=128, exact=False):
     """The key handed to short_string in the table writer is the dict key
     itself, or the key truncated to >= limit characters exactly when it has
     more than limit characters.  -> [(construct, ok, why)]"""
@@ -349,6 +439,10 @@ def table_key_rule(ctx, limit=128):
                         isinstance(a.args[2], int) and lim is not None and \
                         a.args[2] >= limit and lim >= limit
                     okk = tr_ok and b is K
+                    if okk and exact:
+                        # the documented rule itself: names of more than
+                        # `limit` characters are cut to exactly `limit`
+                        okk = lim == limit and a.args[2] == limit
                     why = 'truncated iff %s to %s' % (T.show(g)[:60],
                                                       T.show(a)[:60])
                 out.append(('encode.field_table key', okk, why))
@@ -377,6 +471,14 @@ def flag_word_rule(ctx):
     outs = it.run_function(m, args, {}, st)
     loops = [l for l in it.loops if l['func'] is m]
     if not loops:
+        rets0 = [o for o in outs if o.kind == 'return' and
+                 isinstance(o.value, tuple) and len(o.value) == 2]
+        if rets0 and all(isinstance(o.value[0], int) and
+                         not isinstance(o.value[0], Sym) for o in rets0):
+            return [('ContentHeader._get_flags', False,
+                     'always reports %s octets of flags: a first flag word '
+                     'with the continuation bit set is not followed to the '
+                     'next word' % sorted({o.value[0] for o in rets0}))]
         return [('ContentHeader._get_flags', None, 'no data-dependent loop '
                  '(single flag word only?)')]
     lp = loops[0]
@@ -401,6 +503,49 @@ def flag_word_rule(ctx):
     if fl_name is None:
         return [('ContentHeader._get_flags', None, 'flag accumulator not '
                  'identified')]
+    # the loop goes on exactly when the word just read has its continuation
+    # bit (bit 0) set
+    n0 = len(lp['start'].kn.atoms)
+    for kind, want_op in (('conts', 'ne'), ('breaks', 'eq')):
+        for o in lp[kind]:
+            tests = [a for a in o.state.kn.atoms[n0:]
+                     if isinstance(a, Sym) and
+                     T.mentions(a, lambda t: t.op == 'bitand')]
+            okc = None
+            desc = 'no test of the flag word found'
+            for a in tests:
+                neg = False
+                while isinstance(a, Sym) and a.op == 'not':
+                    a, neg = a.args[0], not neg
+                if isinstance(a, Sym) and a.op == 'truthy':
+                    a = T.compare('ne', a.args[0], 0)
+                if isinstance(a, Sym) and a.op in ('eq', 'ne') and \
+                        a.args[1] == 0 and isinstance(a.args[0], Sym) and \
+                        a.args[0].op == 'bitand':
+                    op_ = a.op if not neg else ('ne' if a.op == 'eq'
+                                                else 'eq')
+                    masks = [x for x in a.args[0].args if isinstance(x, int)]
+                    okc = op_ == want_op and masks == [1]
+                    desc = '%s when (word & %s) %s 0' % (
+                        'continues' if kind == 'conts' else 'stops',
+                        masks[0] if masks else '?',
+                        '!=' if op_ == 'ne' else '==')
+                elif isinstance(a, Sym) and a.op in ('eq', 'ne') and \
+                        a.args[1] == 1 and isinstance(a.args[0], Sym) and \
+                        a.args[0].op == 'bitand':
+                    op_ = a.op if not neg else ('ne' if a.op == 'eq'
+                                                else 'eq')
+                    masks = [x for x in a.args[0].args if isinstance(x, int)]
+                    okc = (op_ == 'eq') == (want_op == 'ne') and \
+                        masks == [1]
+                    desc = '%s when (word & %s) %s 1' % (
+                        'continues' if kind == 'conts' else 'stops',
+                        masks[0] if masks else '?',
+                        '==' if op_ == 'eq' else '!=')
+            out.append(('ContentHeader._get_flags continuation (%s)' %
+                        kind, okc, desc + (
+                            '' if okc else ': the grammar continues the '
+                            'flag words exactly while bit 0 is set')))
     old = lp['start_env'][fl_name]
     for o in lp['conts'] + lp['breaks']:
         new = o.state.env.get(fl_name)
